@@ -944,7 +944,19 @@ fn sx_macro(m: &syn::Macro) -> String {
         // a code template: its tokens as text (the translator makes it a symbolic value holding the holes' values)
         "quote" | "parse_quote" => format!("(quote {})", q(&m.tokens.to_string())),
         // a diagnostic of the macro: recorded, not modelled as control flow (proc-macro-error collects it)
-        "emit_error" | "emit_warning" => format!("(diag {})", q(&name)),
+        // (the first string literal among its arguments - the message - is kept)
+        "emit_error" | "emit_warning" => {
+            let mut msg = String::new();
+            for t in m.tokens.clone() {
+                if let proc_macro2::TokenTree::Literal(l) = &t {
+                    if let Ok(ls) = syn::parse_str::<syn::LitStr>(&l.to_string()) {
+                        msg = ls.value();
+                        break;
+                    }
+                }
+            }
+            format!("(diag {} {})", q(&name), q(&msg))
+        }
         "format" => {
             // (format "<template>" args..): the template and the argument expressions
             struct FmtArgs(syn::LitStr, Vec<syn::Expr>);
@@ -1092,6 +1104,8 @@ fn sx_expr(e: &syn::Expr) -> String {
             o
         }
         syn::Expr::While(w) if w.label.is_none() => format!("(while {} {})", sx_expr(&w.cond), sx_block(&w.body)),
+        // `for PAT in EXPR { .. }` over a collection (ranges are written with konst::for_range in const fns)
+        syn::Expr::ForLoop(f) if f.label.is_none() => format!("(forin {} {} {})", sx_pat(&f.pat), sx_expr(&f.expr), sx_block(&f.body)),
         syn::Expr::Continue(c) if c.label.is_none() => "(continue)".into(),
         syn::Expr::Break(b) if b.label.is_none() && b.expr.is_none() => "(break)".into(),
         syn::Expr::Return(r) => match &r.expr {
